@@ -34,3 +34,4 @@ external('ctors_of', [('r', 'ResolverObj'), ('symbol', 'str')], 'list[Ctor]', ra
 external('match_feature', [('c', 'Ctor'), ('full_path', 'str'), ('i', 'InvokerObj')], 'bool', note='ctor.match_feature(dummy node at full_path): assumed to depend on the tree and the path only (validated by the C09 / C10 monitors)')
 external('make_node', [('i', 'InvokerObj'), ('c', 'Ctor'), ('full_path', 'str')], 'NodeObj', note='invoker(ctor, full_path)')
 external('call_fac', [('f', 'Factory')], 'CacheVal', raises={'Exception': None}, note='factory(): the memoised computation (never None: assumed)')
+external('dependants', [('mods', 'dict[str, ModuleObj]'), ('path', 'str')], 'list[str]', note='Modules.__dependant_paths: the loaded modules whose entry point imports the given module (comprehension over dict items and import nodes)')
